@@ -30,6 +30,8 @@ inductive Fault where
   | errAuxTruncated  -- parseAux: "bam: truncated aux data" (fixed-width value cut short)
   | errAuxNoZero     -- parseAux: "bam: invalid zero terminated data: no zero"
   | errAuxZeroInTag  -- parseAux: "bam: invalid zero terminated data: zero in tag"
+  | errAuxHexOdd     -- parseAux/decodeHex: "bam: invalid hex data: odd number of digits"
+  | errAuxHexDigit   -- parseAux/decodeHex: "bam: invalid hex data: ..." (a character that is not a hex digit)
   | errAuxArrayHdr   -- parseAux: "bam: truncated aux array header"
   | errAuxArrayElem  -- parseAux: "bam: unrecognised array element type"
   | errAuxArrayLen   -- parseAux: "bam: invalid array length for aux data"
@@ -66,7 +68,7 @@ def toI32 (u : Nat) : Int := if u < 2147483648 then (u : Int) else (u : Int) - 4
 /-- `sam.Record` as the BAM codec sees it.  `ref`/`mateRef`: `none` is the nil `*Reference`, `some i` is the
 i-th reference of the header (identity in the header = index). `seq` are the packed `Doublet`s,
 `qual = none` is the nil slice, an aux field is the raw `sam.Aux` byte string (tag, type, payload; the
-payload of `Z`/`H` WITHOUT its terminating NUL). -/
+payload of `Z` WITHOUT its terminating NUL, the payload of `H` = the DECODED bytes, not the hex digits). -/
 structure Record where
   name : List Byte
   ref : Option Nat
@@ -127,12 +129,30 @@ def binFor (beg : Int) (end_ : Int) : BitVec 32 :=
   else
     (0#32)
 
-/-- `Record.Bin` -/
-def recordBin (r : Record) : Nat := (binFor r.pos (recordEnd r)).toNat
+/-- `Record.Bin`: `end := r.End(); if end == r.Pos { end++ }; BinFor(r.Pos, end)` — an alignment that consumes no
+reference counts as one base long (repair fdfa0ce) -/
+def recordBin (r : Record) : Nat :=
+  let e := recordEnd r
+  (binFor r.pos (if e = r.pos then e + 1 else e)).toNat
 
 /-! ### Writer -/
 
 def isZH (t : Byte) : Bool := t == 90#8 || t == 72#8   -- 'Z', 'H'
+
+/-- upper-case hex digit of a nibble (`"0123456789ABCDEF"[n]`) -/
+def hexDigit (n : Nat) : Byte := if n < 10 then BitVec.ofNat 8 (48 + n) else BitVec.ofNat 8 (55 + n)
+
+/-- the value of an `H` field as written: two upper-case hex digits per byte -/
+def hexEnc : List Byte → List Byte
+  | [] => []
+  | b :: bs => hexDigit (b.toNat / 16) :: hexDigit (b.toNat % 16) :: hexEnc bs
+
+/-- one aux field as `buildAux` writes it: `H` = tag, type, the hex digits of the in-memory bytes, NUL;
+`Z` = the field and NUL; every other type = the field -/
+def encAuxT (t : Byte) (a : List Byte) : List Byte :=
+  if t == 72#8 then a.take 3 ++ hexEnc (a.drop 3) ++ [0#8]
+  else if t == 90#8 then a ++ [0#8]
+  else a
 
 /-- `buildAux` -/
 def buildAux : List (List Byte) → Except Fault (List Byte)
@@ -143,7 +163,7 @@ def buildAux : List (List Byte) → Except Fault (List Byte)
     | some t =>
       match buildAux as with
       | .error f => .error f
-      | .ok rest => .ok (a ++ (if isZH t then [0#8] else []) ++ rest)
+      | .ok rest => .ok (encAuxT t a ++ rest)
 
 /-- the quality bytes written: the slice, or `Seq.Length` times 0xff when it is nil -/
 def qualBytes (r : Record) : List Byte :=
@@ -246,6 +266,31 @@ def indexZero : List Byte → Option Nat
   | [] => none
   | x :: xs => if x == 0#8 then some 0 else (indexZero xs).map (· + 1)
 
+/-- `unhex`: value of a hex digit of either case -/
+def unhex (c : Byte) : Option Nat :=
+  if 48 ≤ c.toNat ∧ c.toNat ≤ 57 then some (c.toNat - 48)
+  else if 65 ≤ c.toNat ∧ c.toNat ≤ 70 then some (c.toNat - 55)
+  else if 97 ≤ c.toNat ∧ c.toNat ≤ 102 then some (c.toNat - 87)
+  else none
+
+/-- the pair loop of `decodeHex` -/
+def hexDec : List Byte → Except Fault (List Byte)
+  | a :: b :: rest =>
+    match unhex a, unhex b with
+    | some hi, some lo =>
+      match hexDec rest with
+      | .error f => .error f
+      | .ok bs => .ok (byteOf (hi * 16 + lo) :: bs)
+    | _, _ => .error .errAuxHexDigit
+  | _ => .ok []
+
+/-- `decodeHex`: the in-memory `sam.Aux` of a stored `H` field `f` (tag, type, digits; without the NUL) -/
+def decodeHex (f : List Byte) : Except Fault (List Byte) :=
+  if (f.drop 3).length % 2 == 1 then .error .errAuxHexOdd
+  else match hexDec (f.drop 3) with
+    | .error e => .error e
+    | .ok bs => .ok (f.take 3 ++ bs)
+
 /-- the element types `parseAux` accepts for a `B` array: c C s S i I f -/
 def isElemType (t : Byte) : Bool :=
   t == 99#8 || t == 67#8 || t == 115#8 || t == 83#8 || t == 105#8 || t == 73#8 || t == 102#8
@@ -268,6 +313,11 @@ def parseAuxFuel : Nat → List Byte → List (List Byte) → Except Fault (List
           | none => .error .errAuxNoZero
           | some k =>
             if k < 3 then .error .errAuxZeroInTag
+            else if t == 72#8 then
+              -- 'H': the stored hex digits are decoded into a new field
+              match decodeHex (rest.take k) with
+              | .error f => .error f
+              | .ok a => parseAuxFuel fuel (rest.drop (k + 1)) (a :: acc)
             else parseAuxFuel fuel (rest.drop (k + 1)) (rest.take k :: acc)
         else
           -- 'B'
